@@ -117,6 +117,8 @@ def replay(r):
             A, kk = r["A"], r["k"]
             X = C.real_onehot(r["x"], A)
             sc = torch.tensor(r["scores"], dtype=torch.float32) if r.get("scores") is not None else None
+            if r.get("history_A"):
+                km.kmers(C.real_onehot([[i % r["history_A"] for i in range(len(r["x"][0]))]], r["history_A"]), kk)
             y = km.kmers(X, kk, scores=sc)
             for b, row in enumerate(r["x"]):
                 exp = _conc(brute_kmers(row, kk, A, r["scores"][b] if r.get("scores") is not None else None))
@@ -231,6 +233,10 @@ def worker(cfg):
                     ctx.assume(s_and(v >= -8, v <= 8))             # small magnitudes: a counterexample stays visible in float32
             rp = lambda m: dict(cfg, x=C.eval_chars(m, xc), scores=(C.eval_chars(m, sc.a) if sc is not None else None))
             try:
+                if cfg.get("history_A"):
+                    # call history: the same k on sequences over an alphabet of another size earlier in the process
+                    xh = C.sym_chars(ctx, "xh", (1, L), cfg["history_A"])
+                    km.kmers(C.onehot_from_chars(xh, cfg["history_A"]), k)
                 y = km.kmers(X, k, scores=sc)
             except Exception as e:
                 if isinstance(e, core.Inconclusive):
@@ -283,6 +289,7 @@ def configs(tier):
         for dim in (None, 0, 1):
             cf.append(dict(kind="count", rows=n, E=2, T=2 if n > 2 else 3, dim=dim))
         cf.append(dict(kind="count", rows=n, E=2, T=2, dim=None, shape=[3, 3]))
+        cf.append(dict(kind="count", rows=n, E=2, T=2, dim=n % 2, shape=[3, 4]))          # explicit shape AND a reduction
     for n in ((2, 3) if q else (2, 3, 4)):
         for sym in (True, False):
             cf.append(dict(kind="pairs", rows=n, E=2, T=2, symmetric=sym))
@@ -294,6 +301,9 @@ def configs(tier):
     for A, L, k in ([(2, 3, 1), (2, 4, 2), (3, 3, 2), (4, 3, 1)] if q else [(2, 3, 1), (2, 4, 2), (3, 3, 2), (4, 3, 1), (2, 5, 3), (4, 4, 2), (3, 5, 2)]):
         for sc in (False, True):
             cf.append(dict(kind="kmers", A=A, B=2 if L <= 3 else 1, L=L, k=k, scores=sc))
+    # call history: the same k with another alphabet size earlier (larger and smaller)
+    cf.append(dict(kind="kmers", A=3, B=1, L=3, k=2, scores=False, history_A=2))
+    cf.append(dict(kind="kmers", A=2, B=1, L=4, k=2, scores=True, history_A=4))
     return cf
 
 
